@@ -690,7 +690,7 @@ Proof.
   - (* swap *)
     destruct (h <? 0)%Z; [bsim_done HS|]. destruct (i <? 0)%Z; [bsim_done HS|]. destruct (j <? 0)%Z; [bsim_done HS|].
     rewrite <- (HS (Z.to_N h)). destruct (get_buf s (Z.to_N h)) as [d|] eqn:Hg; [|bsim_done HS].
-    unfold byte in *.
+    unfold buf, byte, value in *.
     destruct (nth_N d (Z.to_N i)); [|bsim_done HS]. destruct (nth_N d (Z.to_N j)); [|bsim_done HS].
     cbn [fst snd]. split; [reflexivity|]. apply bsim_set; [exact HS|eapply get_buf_lt; exact Hg].
 Qed.
@@ -730,4 +730,168 @@ Proof.
            | |- context [store_resource ?a ?b] => destruct (store_resource a b)
            | |- context [let '(_, _) := ?c in _] => destruct c
            end; cbn [snd]; try discriminate.
+Qed.
+
+(* ------------------------------------------------------------------ histories: a buffer nobody writes is stable *)
+Lemma b_buffer_history_stable os : forall s k d,
+  get_buf s k = Some d -> Forall (fun o => bop_writes o <> Some (Z.of_N k)) os ->
+  get_buf (b_exec s os) k = Some d.
+Proof.
+  induction os as [|o r IH]; intros s k d Hg Hall; [exact Hg|].
+  inversion Hall as [|? ? H1 Hr]; subst. cbn [b_exec fold_left]. fold (b_exec (fst (b_step s o)) r).
+  apply IH; [|exact Hr]. apply b_isolation_lemma; assumption.
+Qed.
+
+Lemma b_read_depends s1 s2 w k be h off :
+  get_buf s1 (Z.to_N h) = get_buf s2 (Z.to_N h) ->
+  snd (b_step s1 (BRead w k be h off)) = snd (b_step s2 (BRead w k be h off)).
+Proof.
+  intro H. cbn [b_step]. rewrite H. cases_if'; reflexivity.
+Qed.
+
+(* what was written is what is read back, also after any later history that does not write that buffer
+   (reads of it, operations on other buffers, allocations, frees, failing operations of every kind) *)
+Lemma rw_roundtrip_history_lemma s w sg be h off v s1 os :
+  b_step s (BWrite w sg be h off v) = (s1, BOkUnit) ->
+  Forall (fun o => bop_writes o <> Some h) os ->
+  snd (b_step (b_exec s1 os) (BRead w (if sg then 1 else 0) be h off)) = BOkWord (v_int v).
+Proof.
+  intros Hw Hall.
+  pose proof (rw_roundtrip_lemma _ _ _ _ _ _ _ _ Hw) as Hr.
+  assert (Hh : (0 <= h)%Z /\ exists d, get_buf s1 (Z.to_N h) = Some d).
+  { cbn [b_step] in Hw. destruct (writer_range w sg be) as [[lo hi]|]; [|discriminate].
+    destruct (h <? 0)%Z eqn:Eh; [discriminate|]. destruct (off <? 0)%Z; [discriminate|].
+    destruct ((v <? lo) || (hi <? v))%Z; [discriminate|].
+    destruct (write_frame_lemma _ _ _ _ _ Hw) as [d [d' [_ [Hg' _]]]]. split; [lia|eauto]. }
+  destruct Hh as [Hh [d Hg]].
+  assert (Hst : get_buf (b_exec s1 os) (Z.to_N h) = Some d).
+  { apply b_buffer_history_stable; [exact Hg|]. rewrite Z2N.id by exact Hh. exact Hall. }
+  rewrite (b_read_depends (b_exec s1 os) s1) by (rewrite Hst, Hg; reflexivity).
+  rewrite Hr. reflexivity.
+Qed.
+
+Lemma option_Z_dec (a b : option Z) : {a = b} + {a <> b}.
+Proof. decide equality. apply Z.eq_dec. Qed.
+
+(* fixed size: only resize and free change the length of a buffer *)
+Lemma write_at_length s h off bs k d :
+  get_buf s k = Some d -> exists d', get_buf (fst (write_at s h off bs)) k = Some d' /\ length d' = length d.
+Proof.
+  intro Hg. unfold write_at. destruct (h <? 0)%Z eqn:Eh; [eauto|]. destruct (off <? 0)%Z; [eauto|].
+  destruct (get_buf s (Z.to_N h)) as [d0|] eqn:Hg0; [|eauto].
+  destruct (in_bounds _ _ _) eqn:Eb; [|eauto]. cbn [fst].
+  destruct (N.eq_dec (Z.to_N h) k) as [<-|Hne].
+  - rewrite Hg in Hg0. inversion Hg0; subst d0. exists (splice d (Z.to_N off) bs).
+    split; [apply get_buf_set_eq; eapply get_buf_lt; exact Hg|].
+    unfold splice. apply splice_length. unfold in_bounds in Eb. apply andb_true_iff in Eb as [_ Eb]. lia.
+  - rewrite get_buf_set_ne by exact Hne. eauto.
+Qed.
+
+Lemma b_size_fixed_lemma s o k d :
+  get_buf s k = Some d ->
+  (forall n, o <> BResize (Z.of_N k) n) -> o <> BFree (AInt (Z.of_N k)) ->
+  exists d', get_buf (fst (b_step s o)) k = Some d' /\ length d' = length d.
+Proof.
+  intros Hg Hnr Hnf.
+  destruct (option_Z_dec (bop_writes o) (Some (Z.of_N k))) as [Hw|Hw];
+    [|exists d; split; [apply b_isolation_lemma; assumption|reflexivity]].
+  destruct o as [n|a|h|h n|w kd be h off|w sg be h off v|w be h off bits|sh so dh doff len|h off len v|h|h1 h2|bs|h off len|h off bs|h st sp nd|h off len|h i j];
+    cbn [bop_writes] in Hw; try discriminate; cbn [b_step].
+  - destruct a as [z| |]; try discriminate. inversion Hw; subst z. exfalso. apply Hnf. reflexivity.
+  - inversion Hw; subst h. exfalso. apply (Hnr n). reflexivity.
+  - destruct (writer_range w sg be) as [[lo hi]|]; [|eauto]. cases_if'; cbn [fst]; eauto. apply write_at_length. exact Hg.
+  - cases_if'; cbn [fst]; eauto; apply write_at_length; exact Hg.
+  - (* copy into k *)
+    inversion Hw; subst dh. rewrite N2Z.id.
+    destruct (sh <? 0)%Z; [eauto|]. destruct (so <? 0)%Z; [eauto|]. destruct (Z.of_N k <? 0)%Z; [eauto|].
+    destruct (doff <? 0)%Z; [eauto|]. destruct (len <? 0)%Z; [eauto|]. destruct (len =? 0)%Z; [eauto|].
+    destruct (get_buf s (Z.to_N sh)) as [src|]; [|eauto].
+    destruct (in_bounds (Z.to_N len) (Z.to_N so) (N.of_nat (length src))) eqn:B1; cbn [negb]; [|eauto].
+    rewrite Hg. destruct (in_bounds (Z.to_N len) (Z.to_N doff) (N.of_nat (length d))) eqn:B2; cbn [negb]; [|eauto].
+    cbn [fst]. eexists. split; [apply get_buf_set_eq; eapply get_buf_lt; exact Hg|].
+    unfold in_bounds in B1, B2. apply andb_true_iff in B1 as [_ B1]. apply andb_true_iff in B2 as [_ B2].
+    unfold splice. apply splice_length. unfold slice. rewrite firstn_length, skipn_length. lia.
+  - (* fill *)
+    inversion Hw; subst h. rewrite N2Z.id.
+    destruct (Z.of_N k <? 0)%Z; [eauto|]. destruct (off <? 0)%Z; [eauto|]. destruct (len <? 0)%Z eqn:El; [eauto|].
+    destruct ((v <? FILL_MIN) || (FILL_MAX <? v))%Z; [eauto|]. destruct (len =? 0)%Z; [eauto|].
+    rewrite Hg. destruct (in_bounds (Z.to_N len) (Z.to_N off) (N.of_nat (length d))) eqn:B; [|eauto].
+    cbn [fst]. eexists. split; [apply get_buf_set_eq; eapply get_buf_lt; exact Hg|].
+    unfold in_bounds in B. apply andb_true_iff in B as [_ B].
+    unfold splice. apply splice_length. rewrite repeat_length. lia.
+  - (* write_string *)
+    pose proof (write_at_length s h off bs k d Hg) as [d' [H1 H2]].
+    destruct (write_at s h off bs) as [s' r]. cbn [fst] in H1. destruct r; cbn [fst]; eauto.
+  - (* reverse *)
+    inversion Hw; subst h. rewrite N2Z.id.
+    destruct (Z.of_N k <? 0)%Z; [eauto|]. destruct (off <? 0)%Z; [eauto|]. destruct (len <? 0)%Z; [eauto|].
+    destruct (len =? 0)%Z; [eauto|].
+    rewrite Hg. destruct (in_bounds (Z.to_N len) (Z.to_N off) (N.of_nat (length d))) eqn:B; [|eauto].
+    cbn [fst]. eexists. split; [apply get_buf_set_eq; eapply get_buf_lt; exact Hg|].
+    unfold in_bounds in B. apply andb_true_iff in B as [_ B].
+    unfold splice. apply splice_length. rewrite rev_length. unfold slice. rewrite firstn_length, skipn_length. lia.
+  - (* swap *)
+    inversion Hw; subst h. rewrite N2Z.id.
+    destruct (Z.of_N k <? 0)%Z; [eauto|]. destruct (i <? 0)%Z; [eauto|]. destruct (j <? 0)%Z; [eauto|].
+    rewrite Hg. destruct (nth_N d (Z.to_N i)); [|eauto]. destruct (nth_N d (Z.to_N j)); [|eauto].
+    cbn [fst]. eexists. split; [apply get_buf_set_eq; eapply get_buf_lt; exact Hg|]. rewrite !length_upd_N. reflexivity.
+Qed.
+
+(* ------------------------------------------------------------------ the whole manual-memory state *)
+Definition MemInv (st : memstate) : Prop := Inv (fst st).
+Definition MemSim (st : memstate) (sp : memspec) : Prop := Sim (fst st) (fst sp) /\ BSim (snd st) (snd sp).
+
+Lemma mem_refines_lemma st sp o :
+  MemInv st -> MemSim st sp ->
+  MemInv (fst (mem_step st o))
+  /\ snd (memspec_step sp o (snd (mem_step st o))) = snd (mem_step st o)
+  /\ MemSim (fst (mem_step st o)) (fst (memspec_step sp o (snd (mem_step st o)))).
+Proof.
+  destruct st as [s b], sp as [p m]. unfold MemInv, MemSim. cbn [fst snd]. intros HI [HS HB].
+  destruct o as [o|o]; cbn [mem_step memspec_step fst snd].
+  - destruct (mh_refines_u s p o HI HS) as [HI' [Hr HS']].
+    destruct (mh_step s o) as [s' r]. cbn [fst snd] in *.
+    destruct (spec_step p o r) as [p' r']. cbn [fst snd] in *. subst r'. auto.
+  - destruct (b_refines_lemma b m o HB) as [Hr HB'].
+    destruct (b_step b o) as [b' r]. cbn [fst snd] in *.
+    destruct (bspec_step m o r) as [m' r']. cbn [fst snd] in *. subst r'. auto.
+Qed.
+
+Lemma mem_run_cons st o r :
+  mem_run st (o :: r) = (fst (mem_run (fst (mem_step st o)) r), snd (mem_step st o) :: snd (mem_run (fst (mem_step st o)) r)).
+Proof. cbn [mem_run]. destruct (mem_step st o) as [s1 x]. cbn [fst snd]. destruct (mem_run s1 r) as [s2 xs]. reflexivity. Qed.
+
+Lemma mem_run_exec os : forall st, fst (mem_run st os) = mem_exec st os.
+Proof. induction os as [|o r IH]; intro st; [reflexivity|]. rewrite mem_run_cons. cbn [fst]. rewrite IH. reflexivity. Qed.
+
+Lemma memspec_run_cons sp o r x xs :
+  memspec_run sp (o :: r) (x :: xs) =
+  (fst (memspec_run (fst (memspec_step sp o x)) r xs),
+   snd (memspec_step sp o x) :: snd (memspec_run (fst (memspec_step sp o x)) r xs)).
+Proof. cbn [memspec_run]. destruct (memspec_step sp o x) as [m1 y]. cbn [fst snd]. destruct (memspec_run m1 r xs) as [m2 ys]. reflexivity. Qed.
+
+Lemma mem_refines_history_lemma os : forall st sp,
+  MemInv st -> MemSim st sp ->
+  MemInv (mem_exec st os)
+  /\ snd (memspec_run sp os (snd (mem_run st os))) = snd (mem_run st os)
+  /\ MemSim (mem_exec st os) (fst (memspec_run sp os (snd (mem_run st os)))).
+Proof.
+  induction os as [|o r IH]; intros st sp HI HS; [cbn; auto|].
+  destruct (mem_refines_lemma st sp o HI HS) as [HI1 [Hr HS1]].
+  rewrite mem_run_cons. cbn [fst snd]. rewrite memspec_run_cons. cbn [fst snd].
+  destruct (IH _ _ HI1 HS1) as [HI2 [Hr2 HS2]]. cbn [mem_exec fold_left]. fold (mem_exec (fst (mem_step st o)) r).
+  split; [exact HI2|]. split; [rewrite Hr, Hr2; reflexivity|exact HS2].
+Qed.
+
+Lemma mem_empty_ok : MemInv mem_empty /\ MemSim mem_empty memspec_empty.
+Proof. split; [exact inv_empty|split; [exact sim_empty|exact bsim_empty]]. Qed.
+
+(* the two halves never interfere *)
+Lemma mem_independent st o :
+  (forall m, o = OpM m -> snd (fst (mem_step st o)) = snd st)
+  /\ (forall b, o = OpB b -> fst (fst (mem_step st o)) = fst st).
+Proof.
+  split; intros x ->; cbn [mem_step].
+  - destruct (mh_step (fst st) x). reflexivity.
+  - destruct (b_step (snd st) x). reflexivity.
 Qed.
